@@ -1,7 +1,7 @@
 (* Correspondence cases for C10: an operation history on one itsdb table and
    what was observed after every operation. *)
 From Coq Require Import List NArith ZArith Bool.
-From PyD Require Export Base.Str Base.PySlice Model.TsdbFiles Model.Table Corr.Common.
+From PyD Require Export Base.Str Base.PySlice Model.TsdbFiles Model.Table Model.Process Corr.Common.
 Import ListNotations.
 
 Inductive op :=
@@ -71,12 +71,32 @@ Fixpoint run (t : table) (ops : list op) (ip : list Z) (sp : list pyslice) : lis
   | o :: ops' => let '(st, t') := step t o in observe st t' ip sp :: run t' ops' ip sp
   end.
 
+(* TestSuite.process: the relations at the start (stored file, rows appended but not
+   committed), the relations the field mapper clears, the rows it produced in order,
+   the buffer size and the gzip flag; observed: per relation the rows in memory and on
+   disk afterwards, whether the test suite is in a transaction, and how many times
+   _add_row committed *)
+Record pobs := { p_name : str; p_mem : list row; p_disk : list row }.
+
+Definition pobs_eqb (a b : pobs) : bool :=
+  str_eqb (p_name a) (p_name b) && list_eqb row_eqb (p_mem a) (p_mem b) && list_eqb row_eqb (p_disk a) (p_disk b).
+
 Inductive case :=
-| CTable (init : rel row) (ops : list op) (ip : list Z) (sp : list pyslice) (expected : list obs).
+| CTable (init : rel row) (ops : list op) (ip : list Z) (sp : list pyslice) (expected : list obs)
+| CProcess (inits : list (str * rel row * list row)) (affected : list str) (prod : list (str * row))
+           (bs : Z) (gzflag : bool) (expected : list pobs) (intx : bool) (ncommits : nat).
 
 Definition check_case (c : case) : bool :=
   match c with
   | CTable init ops ip sp expected =>
       let t := open_table init in
       list_eqb obs_eqb (observe 0%N t ip sp :: run t ops ip sp) expected
+  | CProcess inits affected prod bs gzflag expected intx ncommits =>
+      let ts0 := map (fun x => (fst (fst x), t_extend (open_table (snd (fst x))) (snd x))) inits in
+      let ts := process affected prod bs gzflag ts0 in
+      list_eqb pobs_eqb
+        (map (fun nt => {| p_name := fst nt; p_mem := t_iter (snd nt); p_disk := content (t_file (snd nt)) |}) ts)
+        expected &&
+      Bool.eqb (existsb (fun nt => in_transaction (snd nt)) ts) intx &&
+      Nat.eqb (commits bs (clear_affected affected ts0) prod) ncommits
   end.
